@@ -126,7 +126,11 @@ func main() {
 		childMain(strings.TrimPrefix(a.Extra, "child="))
 		return
 	}
-	res := vlib.NewResult("C09", a.Out, rule)
+	if strings.HasPrefix(a.Extra, "optchild=") {
+		optChildMain(strings.TrimPrefix(a.Extra, "optchild="))
+		return
+	}
+	res := vlib.NewResult("C09", a.Out, rule+optRule)
 	defer res.Write()
 	self, err := os.Executable()
 	if err != nil {
@@ -135,6 +139,16 @@ func main() {
 	}
 
 	if a.Replay != "" {
+		if osc, ok := loadOptScenario(a.Replay); ok {
+			out := runOptChild(self, a.Out, osc)
+			judgeOpt(res, osc, out)
+			if res.NViolations() > 0 {
+				fmt.Println("replay fails:", out.Class, firstLine(out.Detail))
+			} else {
+				fmt.Println("replay passes")
+			}
+			return
+		}
 		sc, err := loadScenario(a.Replay)
 		if err != nil {
 			fmt.Println("cannot load replay:", err)
@@ -172,6 +186,22 @@ func main() {
 			corpus = append(corpus, sc)
 		}
 		res.Count("corpus_scenarios", len(corpus))
+	}
+
+	// the options part (getter correspondence cases, option scenarios on the real DB) runs beside the scenarios
+	runOptCases(a, res)
+	if strings.Contains(a.Extra, "optcasesonly") {
+		return
+	}
+	var optWg sync.WaitGroup
+	optWg.Add(1)
+	go func() {
+		defer optWg.Done()
+		runOptScenarios(a, res, self)
+	}()
+	defer optWg.Wait()
+	if strings.Contains(a.Extra, "optonly") {
+		return
 	}
 
 	n := 300
